@@ -1193,9 +1193,10 @@ func getLoginDestination(r *http.Request) string {
 		inboundLoginDestination := r.Form.Get("login_destination")
 		// Browsers treat a backslash as a slash and strip tabs and newlines
 		// from URLs: "/\\host" and "/<TAB>/host" would leave this origin.
-		// http.Redirect removes dot segments, so "/./\\host" is as bad.
+		// http.Redirect removes dot segments from everything before the
+		// query, so "/./\\host" and "/#/../\\host" are as bad.
 		destinationPath := inboundLoginDestination
-		if i := strings.IndexAny(destinationPath, "?#"); i >= 0 {
+		if i := strings.Index(destinationPath, "?"); i >= 0 {
 			destinationPath = destinationPath[:i]
 		}
 		if strings.HasPrefix(inboundLoginDestination, "/") &&
